@@ -1,3 +1,4 @@
+import math
 from .transform import BlockPass
 from .. import ir
 
@@ -15,6 +16,9 @@ class CommonSubexpressionEliminationPass(BlockPass):
                 k = (i.a, i.operation, i.b, i.ty)
             elif isinstance(i, ir.Const):
                 k = (i.value, i.ty)
+                if isinstance(i.value, float):
+                    # 0.0 == -0.0, but they are different constants:
+                    k = (i.value, math.copysign(1.0, i.value), i.ty)
             else:  # pragma: no cover
                 # This branch is actually covered, but is optimized by
                 # the python peep-hole optimizer!
